@@ -319,6 +319,47 @@ def r_provenance(c):
                     m.loc("pytato.codegen", fd), "default prefix outside the reserved space")
 
 
+def r_generator_spaces(c):
+    """variable-like names come from the variable generator, instruction ids
+    from the instruction-id generator"""
+    m = c.model
+    n = 0
+    for _mi, fd in m.all_functions(modules=[LC, "pytato.codegen"]):
+        if m.enclosing_function(fd) is not None:
+            continue
+        qn = m.qualname(fd).replace("pytato.", "", 1)
+        for call in ast.walk(fd):
+            if not isinstance(call, ast.Call):
+                continue
+            f = ast.unparse(call.func)
+            if f.endswith("_generate_name_for_temp") and len(call.args) >= 2:
+                n += 1
+                g = ast.unparse(call.args[1])
+                c.check(g.endswith("var_name_gen"), "R15-PROVENANCE", qn,
+                        f"name-space:{m.frag(call, 50)}", m.loc(m.module_of(fd), call),
+                        f"a variable/temporary/substitution name is minted from `{g}` "
+                        "instead of the variable-name generator that knows the user's "
+                        "names: it can coincide with an input, output or temporary")
+            if f == "make_assignment":
+                for k in call.keywords:
+                    if k.arg == "id":
+                        n += 1
+                        p = k.value
+                        src = None
+                        if isinstance(p, ast.Name):
+                            for st in ast.walk(fd):
+                                if isinstance(st, ast.Assign) and any(
+                                        isinstance(t, ast.Name) and t.id == p.id
+                                        for t in st.targets):
+                                    src = ast.unparse(st.value)
+                        c.check(src is not None and "insn_id_gen(" in src, "R15-PROVENANCE",
+                                qn, f"name-space:id={m.frag(p, 30)}", m.loc(m.module_of(fd), call),
+                                "an instruction id is not minted by the instruction-id "
+                                "generator")
+    if n < 8:
+        raise AnalysisError(f"only {n} generator-name-space obligations (floor 8)")
+
+
 def r_named(c):
     m = c.model
     fd = m.func("pytato.codegen._generate_name_for_temp")
@@ -478,7 +519,7 @@ def r_bound(c):
 
 SPEC = Spec(
     prop="C15",
-    rules=[r_seed_first, r_provenance, r_named, r_clash, r_bound],
+    rules=[r_seed_first, r_provenance, r_generator_spaces, r_named, r_clash, r_bound],
     floors={"R15-SEED-FIRST": 9, "R15-PROVENANCE": 25, "R15-NAMED": 4, "R15-CLASH": 8,
             "R15-BOUND": 8},
     explanation=(
